@@ -132,7 +132,8 @@ pub struct Kernel {
 
 /// Boundary values of the kernels' domains and codomains: a secret-dependent fast path or early
 /// exit typically triggers exactly on one of these (0, +-1, +-(q-1)/2, +-q, multiples of gamma2, ...).
-const SPECIAL: [i64; 30] = [
+const SPECIAL: [i64; 38] = [
+    8_285_185, 8_285_184, 8_118_529, 8_118_528, -8_285_185, -8_118_529, 8_189_953, 7_856_641, // q-gamma2 (the documented Decompose corner), q-1-gamma2, q-2*gamma2
     0, 1, -1, 2, -2, 4, -4,
     4_190_208, -4_190_208, 4_190_209, -4_190_209, // +-(q-1)/2, +-(q+1)/2
     8_380_416, -8_380_416, 8_380_417, -8_380_417, // +-(q-1), +-q
